@@ -67,6 +67,9 @@ def install(reg):
     ))
 
 
+_EXPORT = {}
+
+
 def install_succession(reg):
     EMPTYS = z3.K(Name, z3.IntVal(-1))
     AccFold = z3.Function("AccFixed", T.Net, LS.sort(), I, T.SpaceS)     # values fixed before step k of a succession
@@ -102,6 +105,8 @@ def install_succession(reg):
                 ("one_list_per_step", LLS.len(cs) == c.i),
                 ("steps_sound", z3.ForAll([k_], z3.Implies(z3.And(0 <= k_, k_ < c.i), step_sound(c, k_, LLS.at(cs)[k_]))))]
 
+    _EXPORT["step_sound"] = step_sound
+    _EXPORT["AX_ACC"] = AX_ACC
     reg.add(Contract(
         "biobalm.control.drivers_of_succession",
         params=[("bn", TGraph), ("succession", LS), ("strategy", STRAT), ("max_drivers_per_succession_node", OptInt), ("forbidden_drivers", OptSN)],
@@ -123,4 +128,113 @@ def install_succession(reg):
             z3.And(T.wf_space(z3.Const("s!pw", T.SpaceS)), T.dom_within(z3.Const("s!pw", T.SpaceS), N(c))),
             z3.And(T.wf_space(T.Perc(N(c), z3.Const("s!pw", T.SpaceS))), T.dom_within(T.Perc(N(c), z3.Const("s!pw", T.SpaceS)), N(c)))),
             patterns=[T.Perc(N(c), z3.Const("s!pw", T.SpaceS))]))])},
+    ))
+
+
+# ====================================================================== succession_control (C06, C07)
+def install_control(reg):
+    """succession_control against its body: every reported intervention carries, for every step of ITS succession, only overrides that
+    force the step's motif (relative to what the previous steps fixed) within the caller's constraints - the arguments are passed on
+    unchanged - and `successful_only` filters exactly the interventions with an empty step.  successions_to_target (path enumeration
+    over networkx) and the Intervention constructor (canonical ordering of the overrides) are assumed."""
+    import types
+    from pyvc.contract import HeapParam
+    from pyvc.registry import ObjModel
+    from pyvc import engine as E
+    from . import sd_inv as S
+    SD = HeapParam("SD")
+    TIv = TObj("Intervention")
+    LIv = TList(TIv)
+    IvS = TIv.sort()
+    iv_control = z3.Function("iv_control", IvS, LLS.sort())
+    iv_succession = z3.Function("iv_succession", IvS, LS.sort())
+    iv_strategy = z3.Function("iv_strategy", IvS, I)
+    iv_successful = z3.Function("iv_successful", IvS, B)
+    a_, m_, m2_ = z3.Int("a!sc"), z3.Int("m!sc"), z3.Int("m2!sc")
+    step_sound = _EXPORT["step_sound"]
+
+    class IvModel(ObjModel):
+        def getattr(self, eng, st, v, attr, node):
+            if attr == "successful":
+                return vbool(iv_successful(v.t))
+            if attr == "control":
+                return Val(LLS, iv_control(v.t))
+            if attr == "succession":
+                return Val(LS, iv_succession(v.t))
+            raise OutOfSubset(f"Intervention.{attr}")
+    reg.add_model(lambda v: v.ty == TIv, IvModel())
+
+    def ctor(eng, st, node):
+        """ASSUMED: Intervention(control, strategy, succession) keeps the succession and the strategy, stores for every step the same
+        overrides in a canonical order (sorted by items), and is successful iff no step is empty"""
+        args = [eng.ev(x, st) for x in node.args]
+        if len(args) != 3 or node.keywords:
+            raise OutOfSubset("Intervention(<unexpected arguments>)")
+        ctl, strat, succ = eng.coerce(args[0], LLS, st), eng.coerce(args[1], STRAT, st), eng.coerce(args[2], LS, st)
+        iv = TIv.fresh("intervention")
+        c2 = iv_control(iv.t)
+        st.assume(z3.And(iv_succession(iv.t) == succ.t, iv_strategy(iv.t) == strat.t, LLS.len(c2) == LLS.len(ctl.t)))
+        st.assume(z3.ForAll([a_], z3.Implies(z3.And(0 <= a_, a_ < LLS.len(ctl.t)), z3.And(
+            LS.len(LLS.at(c2)[a_]) == LS.len(LLS.at(ctl.t)[a_]),
+            z3.ForAll([m_], z3.Implies(z3.And(0 <= m_, m_ < LS.len(LLS.at(c2)[a_])), z3.Exists([m2_], z3.And(
+                0 <= m2_, m2_ < LS.len(LLS.at(ctl.t)[a_]), LS.at(LLS.at(ctl.t)[a_])[m2_] == LS.at(LLS.at(c2)[a_])[m_]))))))))
+        st.assume(iv_successful(iv.t) == z3.ForAll([a_], z3.Implies(z3.And(0 <= a_, a_ < LLS.len(ctl.t)), LS.len(LLS.at(ctl.t)[a_]) > 0)))
+        return iv
+    reg.global_calls["Intervention"] = ctor
+    reg.extra_trusted.append({"biobalm.control.Intervention(control, strategy, succession)":
+                              "keeps succession and strategy, stores each step's overrides in canonical order (a permutation), successful iff no step is empty"})
+
+    ALLF = ["K", "space", "expanded", "skipped", "parent", "cand", "seeds", "sets", "ppn", "pbn", "pnfvs", "edge", "motifs", "motif0", "succsig", "depth", "index"]
+
+    def succ_wf(v, l):
+        return z3.And(LS.len(l) >= 0, z3.ForAll([k_], z3.Implies(z3.And(0 <= k_, k_ < LS.len(l)), z3.And(
+            T.wf_space(LS.at(l)[k_]), T.dom_within(LS.at(l)[k_], S.net(v))))))
+
+    reg.add(Contract(
+        "biobalm.control.successions_to_target", trusted=True,
+        params=[("succession_diagram", SD), ("target", TSpace), ("expand_diagram", TBool), ("skip_feedforward_successions", TBool)],
+        defaults={"expand_diagram": True, "skip_feedforward_successions": False}, result_type=LLS, properties=("C06", "C07"),
+        requires=[lambda c: S.inv_all(c.succession_diagram)],
+        modifies={"succession_diagram": ALLF},
+        ensures=[("lists_of_stable_motifs", lambda c: z3.And(LLS.len(c.result) >= 0, z3.ForAll([a_], z3.Implies(
+            z3.And(0 <= a_, a_ < LLS.len(c.result)), succ_wf(c.succession_diagram, LLS.at(c.result)[a_]))))),
+                 ("diagram_only_extended", lambda c: z3.And(S.ext(c.succession_diagram, c.old.succession_diagram), S.inv_all(c.succession_diagram)))],
+        may_raise={"RuntimeError": {"modifies": {"succession_diagram": ALLF}}},
+        note="ASSUMED: expands towards the target (expand_to_target, verified) and enumerates, over networkx simple paths and itertools.product, "
+             "the sequences of stable motifs along root-to-target paths; every element is a well-formed space over the network's variables"))
+
+    def ns(c, iv):
+        return types.SimpleNamespace(bn=c.old.succession_diagram.sym if c.old is not None else c.succession_diagram.sym,
+                                     succession=iv_succession(iv), strategy=c.strategy,
+                                     max_drivers_per_succession_node=c.max_drivers_per_succession_node, forbidden_drivers=c.forbidden_drivers)
+
+    def iv_ok(c, iv):
+        n = ns(c, iv)
+        return z3.And(LLS.len(iv_control(iv)) == LS.len(iv_succession(iv)), iv_strategy(iv) == c.strategy,
+                      z3.ForAll([k_], z3.Implies(z3.And(0 <= k_, k_ < LS.len(iv_succession(iv))), step_sound(n, k_, LLS.at(iv_control(iv))[k_]))),
+                      z3.Implies(c.successful_only, iv_successful(iv)))
+
+    def all_ok(c, lst, upto=None):
+        n = LIv.len(lst) if upto is None else upto
+        return z3.And(LIv.len(lst) >= 0, z3.ForAll([a_], z3.Implies(z3.And(0 <= a_, a_ < n), iv_ok(c, LIv.at(lst)[a_]))))
+
+    OptSN_ = OptSN
+    reg.add(Contract(
+        "biobalm.control.succession_control",
+        params=[("succession_diagram", SD), ("target", TSpace), ("strategy", STRAT), ("max_drivers_per_succession_node", OptInt),
+                ("forbidden_drivers", OptSN_), ("successful_only", TBool), ("skip_feedforward_successions", TBool)],
+        defaults={"strategy": "internal", "max_drivers_per_succession_node": None, "forbidden_drivers": None, "successful_only": True,
+                  "skip_feedforward_successions": False},
+        result_type=LIv, properties=("C06", "C07"),
+        requires=[lambda c: S.inv_all(c.succession_diagram), lambda c: z3.Or(c.strategy == 0, c.strategy == 1)],
+        modifies={"succession_diagram": ALLF},
+        ensures=[("every_step_of_every_reported_intervention_is_sound_and_within_the_constraints", lambda c: all_ok(c, c.result)),
+                 ("diagram_only_extended", lambda c: z3.And(S.ext(c.succession_diagram, c.old.succession_diagram), S.inv_all(c.succession_diagram)))],
+        raises={"RuntimeError": []}, may_raise={"RuntimeError": {"modifies": {"succession_diagram": ALLF}}},
+        axioms=_EXPORT["AX_ACC"],
+        local_types={"interventions": LIv, "successions": LLS},
+        loops={0: LoopContract("for succession in successions", lambda c: [
+            ("reported_so_far_are_sound", all_ok(c, c.interventions)),
+            ("diagram_untouched_by_the_loop", z3.And(c.succession_diagram.sym == c.old.succession_diagram.sym, S.net(c.succession_diagram) == S.net(c.old.succession_diagram)))])},
+        note="the diagram's symbolic graph (used for the LDOI computations) is not changed by the expansion",
     ))
